@@ -223,6 +223,7 @@ type c12SCKey struct {
 }
 
 type c12SC struct {
+	buf      []cache.SearchResult
 	sc       *cache.SearchCache
 	lru      *cache.LRUCache
 	pool     []c12SCKey
@@ -273,7 +274,18 @@ func (s *c12SC) Put(k int, val string, ctr int) {
 	for _, r := range s.lru.Keys() {
 		before[r] = true
 	}
-	s.sc.Put(s.variant(s.pool[k].q), s.pool[k].opts, c12Results(val, ctr))
+	// the caller's result slice is its own: half of the time one buffer is reused for every Put (and scribbled over afterwards)
+	rs := c12Results(val, ctr)
+	if ctr%2 == 0 {
+		s.buf = append(s.buf[:0], rs...)
+		rs = s.buf
+	}
+	s.sc.Put(s.variant(s.pool[k].q), s.pool[k].opts, rs)
+	if ctr%4 == 0 {
+		for i := range rs {
+			rs[i] = cache.SearchResult{Command: "overwritten by the caller after Put", Score: -1}
+		}
+	}
 	for _, r := range s.lru.Keys() {
 		if before[r] {
 			continue
@@ -901,8 +913,17 @@ func c12LRUPool(r *rand.Rand, n int) []string {
 	for i := range out {
 		out[i] = c12KeyVocab[perm[i]]
 	}
+	if pairs := vlib.CollidingWords(); n >= 2 && len(pairs) > 0 && r.Intn(5) == 0 {
+		// two keys that a 32-bit hash (FNV-1a, FNV-1, CRC-32, Adler-32, djb2) cannot tell apart - as plain words and in the
+		// "search:<word>" shape the application's keys have
+		pr := pairs[r.Intn(len(pairs))]
+		out[0], out[1] = pr.A, pr.B
+		c12CollidingPools++
+	}
 	return out
 }
+
+var c12CollidingPools int
 
 var c12Queries = []string{"find files", "git commit", "list", "compress folder", "", "find  files", "show disk usage", "naïve search", "find files now"}
 
@@ -1109,6 +1130,7 @@ func engineLRUModel(ctx *Ctx) {
 				Witness: map[string]interface{}{"case": cs, "failed_at_op": len(h.ops), "history": c12Tail(h.trace(), 400)}})
 		}
 	}
+	ctx.R.Path("pools-with-hash-colliding-keys", int64(c12CollidingPools))
 	ctx.R.Extra["states"] = len(states)
 	if capped {
 		ctx.R.Extra["states_capped_shards"] = 1
